@@ -94,11 +94,11 @@ fn verif_grid() {
     let idx: Vec<String> = (0..ROWS.len()).map(|i| i.to_string()).collect();
     let idx_refs: Vec<&str> = idx.iter().map(|s| s.as_str()).collect();
     for (bi, seq) in sequences(&idx_refs, 5).into_iter().enumerate() {
-        if seq.len() == 4 && bi % 9 != 0 { continue; }
-        if seq.len() == 5 && bi % 97 != 0 { continue; }
+        if seq.len() == 4 && left_out(bi, 9) { continue; }
+        if seq.len() == 5 && left_out(bi, 97) { continue; }
         let ids: Vec<usize> = seq.iter().map(|s| s.parse().unwrap()).collect();
         for shape in 0..STATEMENTS.len() {
-            if ids.len() >= 3 && (bi + shape) % 2 != 0 { continue; }
+            if ids.len() >= 3 && left_out(bi + shape, 2) { continue; }
             let ids = ids.clone();
             g.case(&format!("b{}-s{}", bi, shape), move || {
                 let lines: Vec<&str> = ids.iter().map(|i| ROWS[*i].0).collect();
@@ -121,7 +121,7 @@ fn verif_grid() {
         let idx: Vec<String> = (0..values.len()).map(|i| i.to_string()).collect();
         let idx_refs: Vec<&str> = idx.iter().map(|s| s.as_str()).collect();
         for (bi, seq) in sequences(&idx_refs, 4).into_iter().enumerate() {
-            if seq.len() < 2 || (seq.len() == 4 && bi % 5 != 0) { continue; }
+            if seq.len() < 2 || (seq.len() == 4 && left_out(bi, 5)) { continue; }
             let vs: Vec<i64> = seq.iter().map(|s| values[s.parse::<usize>().unwrap()]).collect();
             g.case(&format!("spread-b{}", bi), move || {
                 let lines: Vec<String> = vs.iter().map(|v| format!("k=a v={} s=x", v)).collect();
